@@ -18,7 +18,9 @@ def nameStr (n : Id) : String := if n == "" then "-" else n
 def render : Out → String
   | .ev name c s => s!"ev {name} {c} {s}"
   | .ident l sa n p lb sb => s!"ev local.ident {l} {sa} {nameStr n} {boolStr p} {lb} {sb}"
-  | .identEnd n d l => s!"ident.end {n} delta={d} local={l}"
+  | .identBind k a sa n p bf sb => s!"ev ident.bind.{k} {a} {sa} {nameStr n} {boolStr p} {bf} {sb}"
+  | .identClean n d => s!"ev ident.clean {d} 0 {nameStr n}"
+  | .identEnd n d f g c l => s!"ident.end {n} delta={d} fn={f} glob={g} cls={c} local={l}"
   | .localsEnd c m lo t => s!"locals.end cur={c} max={m} name={lo} type={t}"
   | .crash w => s!"crash model {w}"
 
@@ -32,14 +34,23 @@ def parseLine (line : String) : Line :=
     match l.toInt?, sa.toInt?, lb.toInt?, sb.toInt? with
     | some l, some sa, some lb, some sb => .out (.ident l sa (if n == "-" then "" else n) (p == "1") lb sb)
     | _, _, _, _ => .other line
+  | ["ev", "ident.clean", d, _, n] =>
+    match d.toInt? with
+    | some d => .out (.identClean (if n == "-" then "" else n) d)
+    | none => .other line
+  | ["ev", bname, a, sa, n, p, bf, sb] =>
+    match a.toInt?, sa.toInt?, bf.toInt?, sb.toInt?, bname.startsWith "ident.bind." with
+    | some a, some sa, some bf, some sb, true =>
+      .out (.identBind (bname.drop 11).toString a sa (if n == "-" then "" else n) (p == "1") bf sb)
+    | _, _, _, _, _ => .other line
   | ["ev", name, c, s] =>
     match c.toInt?, s.toInt? with
     | some c, some s => .out (.ev name c s)
     | _, _ => .other line
-  | ["ident.end", n, d, l] =>
-    match afterEq d, afterEq l with
-    | some d, some l => .out (.identEnd n d l)
-    | _, _ => .other line
+  | ["ident.end", n, d, f, g, c, l] =>
+    match afterEq d, afterEq f, afterEq g, afterEq c, afterEq l with
+    | some d, some f, some g, some c, some l => .out (.identEnd n d f g c l)
+    | _, _, _, _, _ => .other line
   | ["locals.end", c, m, lo, t] =>
     match afterEq c, afterEq m, afterEq lo, afterEq t with
     | some c, some m, some lo, some t => .out (.localsEnd c.toNat m.toNat lo.toNat t.toNat)
@@ -50,13 +61,15 @@ def parseLine (line : String) : Line :=
   | "crash" :: _ => .crashLine line
   | "sanitizer" :: _ => .crashLine line
   | ["ev-truncated"] => .truncated
+  | "aprobe-differs" :: _ => .aprobeDiff line
+  | "ident.base-odd" :: _ => .baseOdd line
   | _ => .other line
 
 /-- names of trace points that continue an operation already started by an earlier line -/
 def continuation (n : String) : Bool :=
   ["local.name", "local.pop", "locals.realloc.type", "locals.realloc.name", "literal.enter.type",
    "literal.enter.name", "literal.leave.type", "literal.leave.name", "local.reactivate", "mem.alloc", "mem.before", "inc.num",
-   "lex.start.if", "lex.start.fnflag", "lex.end.if"].contains n
+   "lex.start.if", "lex.start.fnflag", "lex.end.if", "ident.free_unused"].contains n
 
 /-- the identifier line that follows `local.type` (within the same add_local_name) -/
 def findIdent : List Line → Nat → Option (Id × Bool × Int)
@@ -138,12 +151,28 @@ def replayGo : List Line → List String → Replay → Replay
       | .ok (some e) =>
         let (st', os) := step r.st e
         replayGo ls raws { r with st := st', out := (os.map render).reverse ++ r.out, evs := e :: r.evs }
+    | .out (.identBind k after _ name perm _ sb) =>
+      match (match k with | "fn" => some Kind.fn | "global" => some Kind.glob | "class" => some Kind.cls | _ => none) with
+      | none => replayGo ls raws { r with out := s!"desync: unknown name space {k}" :: r.out }
+      | some kind =>
+        let e := Ev.bind kind name perm after.toNat sb
+        let (st', os) := step r.st e
+        replayGo ls raws { r with st := st', out := (os.map render).reverse ++ r.out, evs := e :: r.evs }
     | .out _ => replayGo ls raws r          -- identifier / end-of-compile reports are produced by the model
     | _ => replayGo ls raws { r with out := raw :: r.out }
 
+/-- names the trace marks as permanent identifiers (efun / simul_efun / reserved) -/
+def permNames (ls : List Line) : List Id :=
+  ls.filterMap (fun l => match l with
+    | .out (.ident _ _ n true _ _) => some n
+    | .out (.identBind _ _ _ n true _ _) => some n
+    | _ => none)
+
 def replay (lines : List String) : Replay :=
   let lines := lines.filter (fun l => l.trimAscii.toString ≠ "")
-  replayGo (lines.map parseLine) lines {}
+  let parsed := lines.map parseLine
+  let perms := permNames parsed
+  replayGo parsed lines { st := St.init NV.Gen.C02.defaultMaxLocals (fun id => perms.contains id) }
 
 def runModel (lines : List String) : List String := (replay lines).out.reverse
 
